@@ -55,6 +55,11 @@ TRUSTED_COMMON = [
 ]
 
 
+# where build/, evidence/ and replays/ go (default: /verif itself; set VERIF_OUT to run a
+# check against a modified tree without touching the committed evidence)
+OUT = os.environ.get("VERIF_OUT", VERIF)
+
+
 def repo_path():
     return os.environ.get("VERIF_REPO", "/repo")
 
@@ -90,7 +95,7 @@ class Ctx:
         self.tier = tier
         self.seed = seed
         self.repo = repo_path()
-        self.build = os.path.join(VERIF, "build", pid)
+        self.build = os.path.join(OUT, "build", pid)
         self.t0 = time.time()
         self.rng = random.Random(seed)
         self.obligations = []  # (name, discharged: bool)
@@ -110,8 +115,8 @@ class Ctx:
         if os.path.isdir(self.build):
             shutil.rmtree(self.build)
         os.makedirs(self.build)
-        os.makedirs(os.path.join(VERIF, "evidence"), exist_ok=True)
-        os.makedirs(os.path.join(VERIF, "replays", pid), exist_ok=True)
+        os.makedirs(os.path.join(OUT, "evidence"), exist_ok=True)
+        os.makedirs(os.path.join(OUT, "replays", pid), exist_ok=True)
 
     # ------------------------------------------------------------ helpers
     def log(self, *a):
@@ -255,7 +260,7 @@ class Ctx:
             # keep counting, stop writing replay files
             self.violations.append(dict(what=what, key=key, path=self.violations[24]["path"], found_input=found_input))
             return
-        path = os.path.join(VERIF, "replays", self.id, f"{self.tier}_{self.seed}_{n}.json")
+        path = os.path.join(OUT, "replays", self.id, f"{self.tier}_{self.seed}_{n}.json")
         rec = dict(property=self.id, what=what, key=key, found_failing_input=found_input, replay=replay,
                    broken=self.broken, repo=self.repo)
         json.dump(rec, open(path, "w"), indent=1, default=str)
@@ -310,7 +315,7 @@ class Ctx:
             cov.update(extra_cov)
         ev = dict(property_id=self.id, tier=self.tier, seed=self.seed, level=level, coverage=cov,
                   assumptions=self.assume, wall_s=round(time.time() - self.t0, 2), violations=len(real))
-        json.dump(ev, open(os.path.join(VERIF, "evidence", self.id + ".json"), "w"), indent=1, default=str)
+        json.dump(ev, open(os.path.join(OUT, "evidence", self.id + ".json"), "w"), indent=1, default=str)
         for e in known:
             if e["key"] in reported_known:
                 print(f"KNOWN-FINDING: property={self.id} {e['what']}")
